@@ -304,6 +304,26 @@ def l7_load_ack(ctx, n, fifo):
     ctx.reached()
 
 
+def l7_back_to_back(ctx):
+    """four load_ack() calls in a row with no other SPI traffic in between, then one more after a level became free"""
+    clock = fresh_env(ctx)
+    radio, nrf = new_lite(clock)
+    nrf.listen = True
+    bufs = [ctx.bytes("b%d" % i, 1 + i) for i in range(5)]
+    pipe = ctx.int("pipe", 0, 5)
+    res = [nrf.load_ack(bufs[i], pipe) for i in range(4)]
+    ctx.check(s_and(res[0] == True, res[1] == True, res[2] == True), "the first three ACK payloads are accepted")  # noqa: E712
+    ctx.check(s_truth(res[3]) == False, "the fourth is refused: the TX FIFO is full")  # noqa: E712
+    ctx.check(len(radio.tx_fifo) == 3, "the TX FIFO holds exactly the three accepted payloads")
+    for i in range(3):
+        ctx.check(len(radio.tx_fifo[i][2]) == 1 + i and bytes_eq(radio.tx_fifo[i][2], bufs[i]), "in order, unmodified")
+    ctx.check(not radio.unspecified, "nothing is written into a full FIFO")
+    radio.tx_fifo.pop(0)  # a received packet consumed the oldest ACK payload (no SPI traffic from the driver meanwhile)
+    ctx.check(s_truth(nrf.load_ack(bufs[4], pipe)) == True, "a valid buffer is accepted again as soon as a level is free")  # noqa: E712
+    ctx.check(len(radio.tx_fifo) == 3, "and it is in the FIFO")
+    ctx.reached()
+
+
 LITE_SWITCH_OPS = ("open_rx0_5", "open_rx0_3", "close_rx0", "open_tx_5", "open_tx_3", "listen_on", "listen_off")
 
 
@@ -358,6 +378,7 @@ def jobs(tier):
         for role in ("rx", "tx"):
             out.append(Job("L6-accessor-history", c10.h_history, dict(ops=list(s), role=role, driver="lite"), cost=len(s)))
     # L7
+    out.append(Job("L7-load_ack-back-to-back", l7_back_to_back, {}, cost=3))
     for n in ((0, 1, 2, 31, 32, 33) if tier == "quick" else range(0, 35)):
         for fifo in (0, 2, 3):
             out.append(Job("L7-load_ack-domain", l7_load_ack, dict(n=n, fifo=fifo), cost=2))
